@@ -373,6 +373,9 @@ def units(tier, seed):
     out.append(("mutations", {}))
     out.append(("roundtrip", {"examples": 4000 if tier == "quick" else 60000}))
     out.append(("tlv-random", {"examples": 4000 if tier == "quick" else 60000}))
+    if tier != "quick":
+        out.append(("atheris", {"runs": 600000, "corpus": "empty"}))
+        out.append(("atheris", {"runs": 600000, "corpus": "seeded"}))
     return out
 
 
@@ -464,6 +467,9 @@ def run_unit(ctx, name, **kw):
             judge(c, rn, data, as_view=view)
             c.sample({"reader": rn, "data": data.hex()})
         run_hypothesis(ctx, "tlv", strat, body, kw["examples"])
+    elif name == "atheris":
+        from . import c11_fuzz
+        c11_fuzz.campaign(ctx, kw["runs"], kw["corpus"])
     else:
         raise ValueError(name)
 
